@@ -232,12 +232,20 @@ def renderPairOp (j : Json) : Except String Res := do
   let tagged := implOuts.zip steps
   let widthOk := tagged.all fun (o, _, w) => w < 1 || withinWidth w o
   let sameOk := tagged.all fun (o, k, w) => tagged.all fun (o', k', w') => k != k' || w != w' || o == o'
+  -- ... and so must two documents with the same text under the same media type, whichever was
+  -- created first and whatever was created in between ("depends only on content and width")
+  let docKey (k : Nat) : Option Json := match j.getObjVal? "docs" with
+    | .ok (Json.arr a) => a[k]?
+    | _ => none
+  let sameDocOk := tagged.all fun (o, k, w) => tagged.all fun (o', k', w') =>
+    k == k' || w != w' || docKey k != docKey k' || (docKey k).isNone || o == o'
   let freshOk := match j.getObjVal? "fresh" with
     | .ok (Json.arr a) => strsOf (Json.arr a) == implOuts
     | _ => true
   let preds := if isStrOut then
       [("safe_output", implOuts.all Safe.safe), ("neutral_at_line_ends", implOuts.all Cells.neutralAtBreaks),
-       ("lines_within_width", widthOk), ("same_width_same_text", sameOk), ("render_is_history_free", freshOk)]
+       ("lines_within_width", widthOk), ("same_width_same_text", sameOk), ("same_document_same_text", sameDocOk),
+       ("render_is_history_free", freshOk)]
     else []
   pure { model := Json.mkObj [("links", Json.arr (rs.map fun r => jsl r.2)), ("out", jsl outs)], preds := preds,
          nontrivial := steps.length ≥ 2 }
